@@ -50,7 +50,10 @@ pub fn lattice_json(w: &Worker) -> Value {
         ends.push(Value::Array(v.iter().map(|n| node(n, b == 0)).collect()));
     }
     let stale: usize = lat.ends.iter().skip(lat.len_char + 1).map(|v| v.len()).sum();
-    let eos = lat.eos.as_ref().map(|e| json!({"sn": e.start_node, "mi": e.min_idx, "mc": e.min_cost}));
+    let eos = match lat.eos.as_ref() {
+        Some(e) => json!({"sn": e.start_node, "mi": e.min_idx, "mc": e.min_cost}),
+        None => json!({"sn": -1, "mi": -1, "mc": 0}),
+    };
     json!({"len": lat.len_char, "ends": ends, "eos": eos, "stale": stale})
 }
 
